@@ -1190,16 +1190,24 @@ class Workflow(Trellis):
         nsucceeded, ntotal = self.db.execute(sql, (self.need_threshold.value,)).fetchone()
         return nsucceeded, ntotal
 
-    def steps(self, state: StepState) -> list[Step]:
+    def steps(self, state: StepState, *, include_detached: bool = False) -> list[Step]:
         """Return all steps with the given state.
 
         The result is a list instead of a lazy cursor,
         so it is safe to iterate over it while mutating the graph (e.g. marking steps pending).
+
+        Parameters
+        ----------
+        state
+            The state to select.
+        include_detached
+            When `True`, detached steps are included.
+            This is what a reaction to a change must do:
+            a detached step can be recycled with its state, see `mark_consuming_steps_pending`.
         """
-        sql = (
-            "SELECT i, label FROM node JOIN step ON node.i = step.node "
-            "WHERE state = ? AND NOT detached"
-        )
+        sql = "SELECT i, label FROM node JOIN step ON node.i = step.node WHERE state = ?"
+        if not include_detached:
+            sql += " AND NOT detached"
         return [Step(self, i, label) for i, label in self.db.execute(sql, (state.value,))]
 
     #
